@@ -12,10 +12,16 @@ from drivers import realproc as rp
 # ---------------------------------------------------------------------------------------------
 # C10
 
-def run_reload(wk, nhup, new_workers, seed, bind="tcp", drop_env_last=False, relcfg=False):
+SLOWBOOT = 'def post_fork(server, worker):\n    import time\n    time.sleep(0.6)\n'
+
+
+def run_reload(wk, nhup, new_workers, seed, bind="tcp", drop_env_last=False, relcfg=False, burst=False):
     """drop_env_last: the configuration of the last HUP no longer has the raw_env line: the workers of the last generation
-    run without the variable"""
-    cfg1 = 'workers = 2\nraw_env = ["VERIF_MARKER=gen0"]\n'
+    run without the variable.  burst: the HUPs follow each other faster than a worker boots (a post_fork hook that takes
+    0.6 s): a reload retires workers that the previous one has forked and that have not installed their handlers yet"""
+    extra = SLOWBOOT if burst else ""
+    gap = 0.25 if burst else 0.9
+    cfg1 = 'workers = 2\nraw_env = ["VERIF_MARKER=gen0"]\n' + extra
     # "tcp2": a second listener; long requests go to the first one, the second one stays (almost) idle
     port2 = rp.free_port() if bind == "tcp2" else None
     s = rp.Server(wk, workers=2, threads=3 if wk == "gthread" else None, config=cfg1, bind="tcp" if bind == "tcp2" else bind,
@@ -58,8 +64,34 @@ def run_reload(wk, nhup, new_workers, seed, bind="tcp", drop_env_last=False, rel
                 with lock:
                     recs.append(rec)
                 time.sleep(pause)
+        karecs = []
+
+        def kaclient():
+            # one persistent connection re-used across the reloads: the next request follows the previous response
+            # well within the keep-alive time, a new connection is made only after the server has closed this one
+            c = None
+            while not stop.is_set():
+                t0 = time.time()
+                try:
+                    if c is None:
+                        c = s.connect(5)
+                    st, body, info = s.get("/pid", timeout=10, sock=c, keepalive=True)
+                    ok = st == 200 and info["complete"]
+                    if ok:
+                        karecs.append({"t0": t0, "marker": rp.parse_ident(body)[1], "pid": rp.parse_ident(body)[0]})
+                    if not ok or info["headers"].get("connection", "").lower() == "close":
+                        c.close()
+                        c = None
+                except OSError:
+                    if c is not None:
+                        c.close()
+                    c = None
+                time.sleep(0.25)
+            if c is not None:
+                c.close()
         ths = [threading.Thread(target=client, args=("/pid", 0.01), daemon=True),
                threading.Thread(target=client, args=("/pid", 0.02), daemon=True),
+               threading.Thread(target=kaclient, daemon=True),
                threading.Thread(target=client, args=("/sleep?t=0.5", 0.01), daemon=True),
                threading.Thread(target=client, args=("/stream?n=3&d=0.15", 0.01), daemon=True)]
         if port2:
@@ -71,17 +103,17 @@ def run_reload(wk, nhup, new_workers, seed, bind="tcp", drop_env_last=False, rel
         for k in range(nhup):
             want = new_workers if k == nhup - 1 else 2 + (k % 2)
             if drop_env_last and k == nhup - 1:
-                s.rewrite_config('workers = %d\n' % want)
+                s.rewrite_config('workers = %d\n' % want + extra)
             elif want == 0:
                 # the setting is removed from the file: the new configuration is the built-in default (1 worker)
                 want = 1
-                s.rewrite_config('raw_env = ["VERIF_MARKER=gen%d"]\n' % (k + 1))
+                s.rewrite_config('raw_env = ["VERIF_MARKER=gen%d"]\n' % (k + 1) + extra)
             else:
-                s.rewrite_config('workers = %d\nraw_env = ["VERIF_MARKER=gen%d"]\n' % (want, k + 1))
+                s.rewrite_config('workers = %d\nraw_env = ["VERIF_MARKER=gen%d"]\n' % (want, k + 1) + extra)
             hups.append(time.time())
             s.signal(signal.SIGHUP)
-            time.sleep(0.9)
-        time.sleep(1.2)
+            time.sleep(gap)
+        time.sleep(1.2 + (0.9 - gap) + (1.2 if burst else 0))
         stop.set()
         [t.join(12) for t in ths]
         # settle: old workers have at most graceful_timeout to finish
@@ -106,11 +138,13 @@ def run_reload(wk, nhup, new_workers, seed, bind="tcp", drop_env_last=False, rel
             inflight = any(r["t0"] + 0.25 < h < r["t1"] for h in hups) and r["path"] != "/pid"
             ev.append({"e": "req", "outcome": r["outcome"], "inflight_at_hup": bool(inflight)})
         ev.append({"e": "after", "old_alive": len(old_alive), "nworkers": len(alive), "want_workers": want,
-                   "old_marker_seen": any(m != final_marker for m in tail)})
+                   "old_marker_seen": any(m != final_marker for m in tail) or
+                                      any(r["marker"] != final_marker for r in karecs if r["t0"] > hups[-1] + 1.6)})
         tr = {"wk": wk, "strict": wk == "sync", "ev": ev}
         bad = [r for r in recs if r["outcome"] != "complete"]
-        return tr, {"wk": wk, "nhup": nhup, "bind": bind, "requests": len(recs), "not_complete": [(r["path"], r["outcome"]) for r in bad][:5],
-                    "alive": len(alive), "want": want, "tail_markers": tail}
+        return tr, {"wk": wk, "nhup": nhup, "bind": bind, "burst": burst, "requests": len(recs), "not_complete": [(r["path"], r["outcome"]) for r in bad][:5],
+                    "alive": len(alive), "want": want, "tail_markers": tail,
+                    "kept_alive": len(karecs), "kept_alive_late_old": [r["pid"] for r in karecs if r["t0"] > hups[-1] + 1.6 and r["marker"] != final_marker][:4]}
     finally:
         stop.set()
         s.cleanup()
@@ -120,13 +154,17 @@ def reload_side(ctx):
     plan = [("sync", 1, 3, "tcp"), ("gthread", 2, 1, "localhost"), ("gevent", 1, 3, "unix"), ("gevent", 1, 2, "tcp2"),
             ("gthread", 1, 2, "unix"), ("sync", 2, 2, "unix"), ("sync", 2, 0, "tcp"), ("sync", 2, 2, "tcp", True), ("gthread", 3, 2, "unix", True),
             # the configuration file named relative to the start directory, --chdir elsewhere
-            ("sync", 2, 3, "tcp", False, True)] if ctx.quick else \
+            ("sync", 2, 3, "tcp", False, True),
+            # HUPs that follow each other faster than a worker boots
+            ("sync", 2, 2, "tcp", False, False, True), ("gevent", 3, 2, "tcp", False, False, True)] if ctx.quick else \
         [(wk, n, w, b) for wk in ("sync", "gthread", "gevent", "eventlet")
          for (n, w, b) in ((1, 3, "tcp"), (2, 1, "localhost"), (3, 2, "unix"), (1, 2, "tcp2"), (2, 0, "tcp"))] + \
         [(wk, n, 2, "tcp", True) for wk in ("sync", "gthread", "gevent", "eventlet") for n in (1, 2, 3)] + \
-        [(wk, 2, 3, b, False, True) for wk in ("sync", "gthread", "gevent", "eventlet") for b in ("tcp", "unix")]
+        [(wk, 2, 3, b, False, True) for wk in ("sync", "gthread", "gevent", "eventlet") for b in ("tcp", "unix")] + \
+        [(wk, n, 2, "tcp", False, False, True) for wk in ("sync", "gthread", "gevent", "eventlet") for n in (2, 3)]
     results = _parallel(plan, lambda a, i: run_reload(a[0], a[1], a[2], ctx.seed * 10 + i, bind=a[3],
-                                                        drop_env_last=len(a) > 4 and a[4], relcfg=len(a) > 5 and a[5]), par=10)
+                                                        drop_env_last=len(a) > 4 and a[4], relcfg=len(a) > 5 and a[5],
+                                                        burst=len(a) > 6 and a[6]), par=10)
     traces = [r[0] for r in results]
     metas = [r[1] for r in results]
     # in-process: TERM (what a reload sends to the old workers) at every system-call boundary of the real sync loop
@@ -143,7 +181,8 @@ def reload_side(ctx):
 
     def rerun(k):
         a = plan[k]
-        return run_reload(a[0], a[1], a[2], ctx.seed * 10 + k, bind=a[3], drop_env_last=len(a) > 4 and a[4], relcfg=len(a) > 5 and a[5])
+        return run_reload(a[0], a[1], a[2], ctx.seed * 10 + k, bind=a[3], drop_env_last=len(a) > 4 and a[4], relcfg=len(a) > 5 and a[5],
+                          burst=len(a) > 6 and a[6])
     tlc.repeat_failing(ctx, "ReloadTrace", "ReloadTrace.cfg", traces, metas, verdicts, range(len(plan)), rerun, "ReloadTrace_C10")
     ctx.coverage["real_process_reloads"] = len(traces)
     ctx.coverage["requests_during_reload"] = sum(m["requests"] for m in metas)
